@@ -167,7 +167,9 @@ func (c *checker) live(t *testing.T) {
 		return lv{n, []*node{I1, R1}}
 	}
 	leaves := []lv{mk("live-cert-server", kCert, []string{"server"}), mk("live-pre-server", kPre, []string{"server"}),
-		mk("live-cert-client", kCert, []string{"client"}), mk("live-cert-noeku", kCert, nil)}
+		mk("live-cert-client", kCert, []string{"client"}), mk("live-cert-noeku", kCert, nil),
+		// anyExtendedKeyUsage on the leaf is a usage like any other for the log's filter: it is not in a list that does not name it
+		mk("live-cert-anyeku", kCert, []string{"any"}), mk("live-pre-anyeku-client", kPre, []string{"any", "client"})}
 	// far-future NotAfter values (beyond what an int64 of nanoseconds since 1970 can hold): outside every window with a limit
 	for _, y := range []int{2300, 9999} {
 		mkNA = time.Date(y, 12, 31, 23, 59, 59, 0, time.UTC)
